@@ -55,6 +55,15 @@ Theorem C10_decode_progress : forall (base : Z) (bytes : list N) (maxArr : Z) d 
 Proof. exact decode_from_progress. Qed.
 Print Assumptions C10_decode_progress.
 
+(** ... and with at least one tensor it is not before the tensor data offset: the position arithmetic is carried out step by step
+    in int64 and every step that leaves the int64 range is an error, so a table of tensor sizes whose running sum wraps (each
+    size fitting an int64) cannot produce a small end offset *)
+Theorem C10_decode_end_after_data : forall (base : Z) (bytes : list N) (maxArr : Z) d al,
+  (0 <= base)%Z -> (base + Z.of_nat (length bytes) < Z.of_N two63)%Z ->
+  decode_from base bytes maxArr = DOk d al -> d_tensors d <> [] -> (Z.of_N (d_toff d) <= d_end d)%Z.
+Proof. exact decode_from_end_ge_toff. Qed.
+Print Assumptions C10_decode_end_after_data.
+
 (** the typed accessors that create (ggufLayers, detectChatTemplate, createModel) and show (Capabilities) call on a decoded
     file - Architecture, Kind, ChatTemplate, FileType, ParameterCount, with keyValue's checked assertion and its
     [defaultValue[0]] index expression modelled as panicking primitives - never panic on the KV of ANY decoded file.
